@@ -3145,7 +3145,9 @@ def transform_pseudo_instructions(items, constants, labels):
             env = ChainMap(constants, labels)
             value = imm.eval(position, env, item.line)
             value = c_int32(value).value  # signed imm
-            if value >= (-2**20) and value <= (2**20 - 1):
+            # a constant (absolute) target gets farther away when earlier items shrink: leave room for that
+            slack = position if reference in constants else 0
+            if value >= (-2**20) and value + slack <= (2**20 - 1):
                 inst = JTypeInstruction(item.line, 'jal', rd='x1', imm=imm)
                 # shrink all subsequent labels by 4
                 new_labels = {k: v - 4 for k, v in labels.items() if v > position}
@@ -3166,7 +3168,9 @@ def transform_pseudo_instructions(items, constants, labels):
             env = ChainMap(constants, labels)
             value = imm.eval(position, env, item.line)
             value = c_int32(value).value  # signed imm
-            if value >= (-2**20) and value <= (2**20 - 1):
+            # a constant (absolute) target gets farther away when earlier items shrink: leave room for that
+            slack = position if reference in constants else 0
+            if value >= (-2**20) and value + slack <= (2**20 - 1):
                 inst = JTypeInstruction(item.line, 'jal', rd='x0', imm=imm)
                 # shrink all subsequent labels by 4
                 new_labels = {k: v - 4 for k, v in labels.items() if v > position}
